@@ -59,6 +59,73 @@ def repo_panic(stderr):
     return None
 
 
+def repo_fatal(stderr):
+    """-> the repository function on the stack of the goroutine the runtime stopped at with 'concurrent map ...' (an unsynchronised map of the
+    repository's, whoever iterates it on its behalf), or None."""
+    m = re.search(r"fatal error: concurrent map [a-z ]+", stderr)
+    if not m:
+        return None
+    j = stderr.find("goroutine ", m.end())
+    if j < 0:
+        return None
+    for ln in stderr[j:].split("\n\n")[0].splitlines():
+        ln = ln.strip()
+        if ln.startswith(("verifharness/", "main.")):
+            return None
+        if ln.startswith("github.com/vx-labs/wasp/v4/"):
+            return m.group(0)[13:] + ":" + ln.split("(")[0].split("/")[-1]
+    return None
+
+
+def store_histories(run, prop, v, n, parts=3):
+    """concurrent histories (writes, removals, lookups, dump-and-load snapshots) on the two topic-keyed stores, under the race detector,
+    judged by Lin.tla; shared with C19.  -> dict for the evidence"""
+    conc = run.gobuild("conc", race=True)
+    env = dict(os.environ, GORACE="halt_on_error=0 history_size=3")
+    hpath = os.path.join(run.scratch, "storehist.ndjson")
+    jobs = []
+    for i in range(parts):
+        e = dict(env, VERIF_SEED=str(run.seed * 100 + 50 + i))
+        jobs.append(subprocess.Popen([conc, "-only", "store", "-out", hpath + ".%d" % i, "-n", str(max(1, n // parts)), "-threads", str(4 + 2 * i), "-ops", str(6 + i)],
+                                     stdout=subprocess.PIPE, stderr=subprocess.PIPE, text=True, env=e, cwd=run.scratch))
+    nhist, rs = 0, []
+    with open(hpath, "w") as out:
+        for i, j in enumerate(jobs):
+            so, se = j.communicate(timeout=1800)
+            if j.returncode not in (0, 66):
+                where = repo_fatal(se)
+                if where is None:
+                    raise vlib.Inconclusive("conc driver exited %d: %s" % (j.returncode, se[-2000:]))
+                v.add("fatal:" + where, "concurrent use of a topic-keyed store stopped the process: %s" % se[se.find("fatal error:"):][:3000],
+                      {"kind": "fatal", "report": se[se.find("fatal error:"):][:3000]})
+                rs += races(se)
+                continue
+            rs += races(se)
+            with open(hpath + ".%d" % i) as f:
+                for ln in f:
+                    h = json.loads(ln)
+                    nhist += 1
+                    h["n"] = nhist
+                    out.write(json.dumps(h, separators=(",", ":")) + "\n")
+    for r in rs:
+        if r["repo"]:
+            fns = sorted({t[0].split("/")[-1] for t in r["top"]})
+            v.add("data-race:" + "+".join(fns), "data race in repository code: %s" % r["text"][:1500], {"kind": "race", "report": r["text"]})
+    validated, rejected, tstates = vlib.validate_scenarios(run, "Lin", "Lin.cfg", hpath, marker='"kind":', chunk_events=60, timeout=1800, max_rejections=3)
+    for rj in rejected:
+        h = rj["scenario"][0]
+        v.add("not-linearizable:%s" % h.get("kind"),
+              "concurrent history on the %s store (writes, removals, lookups, dump + load into a fresh store) has no linearization that is a behaviour "
+              "of a map: %s" % (h.get("which"), json.dumps(sorted(h["ops"], key=lambda o: o["call"]))[:2500]), {"kind": "history", "history": h})
+    nsnap = sum(ln.count('"f":"snapshot"') for ln in open(hpath))
+    run.log("stores under concurrent use: %d histories (%d snapshots), %d rejected, %d race reports in repository code" % (nhist, nsnap, len(rejected), sum(1 for r in rs if r["repo"])))
+    return {"histories": nhist, "snapshots": nsnap, "validated": validated, "rejections": len(rejected), "race_reports_in_repository_code": sum(1 for r in rs if r["repo"]),
+            "trace_spec_states": tstates,
+            "rule": "4-8 goroutines x 6-8 operations (write with values of varying length, remove, exact lookup, snapshot = Dump + Load into a fresh store + "
+                    "lookup of every key) on topics.Store and subscriptions.Tree over keys a, a/b, a/b/c, b, under the Go race detector; Lin.tla: the history "
+                    "is linearizable as a map, a snapshot equals the map at one moment between its call and its return"}
+
+
 def check(run):
     thorough = run.tier == "thorough"
     run.model_check("MC_IdPool", "MC_IdPool.cfg")
@@ -90,7 +157,14 @@ def check(run):
         for i, j in enumerate(jobs):
             so, se = j.communicate(timeout=1800)
             if j.returncode not in (0, 66):
-                raise vlib.Inconclusive("conc driver exited %d: %s" % (j.returncode, se[-2000:]))
+                where = repo_fatal(se)
+                if where is None:
+                    raise vlib.Inconclusive("conc driver exited %d: %s" % (j.returncode, se[-2000:]))
+                # the Go runtime stopped the process: a map of the repository's was used by two goroutines at once
+                v.add("fatal:" + where, "concurrent use of the repository's objects stopped the process: %s" % se[se.find("fatal error:"):][:3000],
+                      {"kind": "fatal", "report": se[se.find("fatal error:"):][:3000]})
+                allraces += races(se)
+                continue
             allraces += races(se)
             k = 0
             with open(hpath + ".%d" % i) as f:
